@@ -259,10 +259,17 @@ func genCorpus(seed uint64, size int) *proto.Corpus {
 			"LicenseRef-Foo AND LicenseRef-foo", "LicenseRef-foo AND LicenseRef-Foo", "LicenseRef-a AND LicenseRef-A AND LicenseRef-a",
 			"DocumentRef-Vendor:LicenseRef-terms AND DocumentRef-vendor:LicenseRef-terms AND MIT", "LicenseRef-b AND LicenseRef-B AND LicenseRef-c AND LicenseRef-C"},
 		{"(", "MIT WITH", "DocumentRef-a", "(LicenseRef-a OR LicenseRef-b) AND MIT OR ISC", ")", "MIT AND", "AND MIT", "MIT OR OR ISC", "(MIT", "MIT)", "()", "MIT ISC"},
+		{"(MIT ISC", "(MIT ISC)", "(MIT MIT", "DocumentRef-a:MIT", "DocumentRef-a MIT", "DocumentRef-a LicenseRef-b", "DocumentRef-a AND MIT",
+			"OR MIT", "MIT OR", "MIT OR )", "MIT AND AND ISC", "MIT OR AND ISC", "MIT AND OR ISC", "( OR MIT)", "(AND MIT)", "MIT AND )", "(MIT))",
+			"DocumentRef-", "LicenseRef-", "LicenseRef-!", "MIT AND LicenseRef-", "DocumentRef-:LicenseRef-a", "DocumentRef-a:LicenseRef-",
+			"+MIT", "MIT++", ":", "MIT:", "WITH Classpath-exception-2.0", "MIT WITH Classpath-exception-2.0 WITH Classpath-exception-2.0",
+			"MIT (Apache-2.0)", "MIT LicenseRef-custom", "MIT Bison-exception-2.2", "Bison-exception-2.2", "MIT AND WITH", "(+MIT)", ":MIT"},
+		{"DocumentRef-d:LicenseRef-a AND MIT", "DocumentRef-d:LicenseRef-a OR DocumentRef-e:LicenseRef-a", "DocumentRef-e:LicenseRef-a", "DocumentRef-d:LicenseRef-b",
+			"MIT AND (Apache-2.0 OR ISC)", "MIT OR (Apache-2.0 AND ISC)", "(MIT AND ISC) OR (Apache-2.0 AND ISC AND Zlib)", "MIT AND ISC OR MIT AND ISC AND Zlib"},
 		{"", " ", "   ", "MIT +", "MIT WITH MIT", "NOPE-1.0", "MIT AND NOPE-1.0", "NOPE-1.0 AND MIT", "Apache-2.0-or-later AND FOO", "MIT ∧ ISC", "MIT\tISC", "\xff\xfe"},
 	}
 	okLists := [][]string{{"MIT"}, {"Apache-2.0", "MIT"}, {"GPL-2.0+"}, {"GPL-3.0-only", "GPL-2.0 WITH Bison-exception-2.2"}, {"LicenseRef-a", "MIT"},
-		{"mit", "MIT", "Mit"}, {"ISC", "NOPE-1.0"}, {"Apache-1.0+"}, {"DocumentRef-d:LicenseRef-a"}}
+		{"mit", "MIT", "Mit"}, {"ISC", "NOPE-1.0"}, {"Apache-1.0+"}, {"DocumentRef-d:LicenseRef-a"}, {"DocumentRef-e:LicenseRef-a", "MIT"}, {"DocumentRef-d:LicenseRef-b", "LicenseRef-a"}, {"ISC", "MIT", "Zlib", "Apache-2.0"}}
 	for _, fam := range fixed {
 		g.fam++
 		for _, e := range fam {
